@@ -7,7 +7,8 @@ import vlib, translate, build_repo
 t = time.time()
 print("translate:", {k: v.get("error", "ok") for k, v in translate.run().items()})
 import re
-exes = re.findall(r'name = "(drv_\w+)"', open(os.path.join(vlib.LEAN, "lakefile.toml")).read())
+exes = [e for e in re.findall(r'name = "(drv_\w+)"', open(os.path.join(vlib.LEAN, "lakefile.toml")).read())
+        if os.path.exists(os.path.join(vlib.LEAN, "Driver", e[4:].upper() + ".lean"))]
 ok, log, wall = vlib.lake_build(["SimuVerif"] + exes)
 print("lake build SimuVerif %s: ok=%s %.0fs" % (" ".join(exes), ok, wall))
 if not ok:
